@@ -40,6 +40,7 @@ def run_c08(res, tier):
     import mirrules
     from mir import load_facts
     mirrules.run_site_completeness(res, load_facts(), ast, which=("io",))
+    mirrules.run_io_discipline_mir(res, load_facts())
     return {}
 
 
@@ -227,9 +228,10 @@ META = {
         explanation="E1 structural/path rules over inplace.rs, irint.rs, bcint/mod.rs, bcint/ops.rs and the emit_limit_check template of codegen.rs.",
         not_decided=["that the events produced before the budget ends equal the canonical prefix", "the exact charge per instruction (back ends charge per branch, not per command)"]),
     "C08": dict(
-        technique="error-discipline rule per call site (accepted terminating idioms, failure-branch effects, propagation through recursive callers), outcome-class evaluation of the I/O layer, template rule for the JIT's failure branch",
+        technique="error-discipline rule per call site on the syntax tree (accepted terminating idioms, failure-branch effects, propagation through recursive callers) and on MIR (def-use closure of each resolved call's result reaches a switch), outcome-class evaluation of the I/O layer, template rule for the JIT's failure branch",
         claim="Decides, per call site of Context::input/output in every back end, that None stops the run through an accepted idiom with no further I/O or "
-              "tape write, and that intermediate callers propagate it (IO-DISCIPLINE); that the I/O layer maps absent/err/zero/eof/byte outcomes as the "
+              "tape write, and that intermediate callers propagate it (IO-DISCIPLINE; cross-checked on the type-checked program: the result of every resolved call "
+              "decides a branch or is returned, and is never fed to a defaulting combinator: IO-DISCIPLINE/MIR); that the I/O layer maps absent/err/zero/eof/byte outcomes as the "
               "property states (IO-MAP); that the JIT tests the failure flag after restoring the stack and leaves through the termination label "
               "(JIT-TERM). The property is an error-discipline statement; this is the whole of its shape.",
         note=TRUST + " llvmjit.rs cannot be built here: it is analysed on the syntax tree only and its known defect is listed in known_findings.json.",
